@@ -15,6 +15,7 @@ Definition op_stages (l : list stage) (o : op) : list stage :=
   match o with
   | OPut i st => list_set l i st
   | OMut i f => match nth_error l i with Some st => list_set l i (f st) | None => l end
+  | OAdd st => l ++ [st]
   | _ => l
   end.
 
@@ -55,7 +56,7 @@ Proof. unfold wf_after. apply fold_left_app. Qed.
 
 (* ops that never touch stages or the workflow status *)
 Definition quiet (o : op) : bool :=
-  match o with OPut _ _ | OMut _ _ | OWf _ => false | _ => true end.
+  match o with OPut _ _ | OMut _ _ | OWf _ | OAdd _ => false | _ => true end.
 
 Lemma stages_after_quiet c : forallb quiet c = true -> forall l, stages_after l c = l.
 Proof.
@@ -98,10 +99,48 @@ Proof. revert i. induction l as [|a l IH]; intros [|i]; simpl; try discriminate;
 (* legality                                                                                    *)
 (* ------------------------------------------------------------------------------------------ *)
 
+(* rows may be ADDED (synthetic stages, the tasks a builder creates at plan time): the old rows are related
+   pointwise, the new rows must be fresh *)
+Inductive grows {A} (R : A -> A -> Prop) (F : A -> Prop) : list A -> list A -> Prop :=
+| G_nil added : Forall F added -> grows R F [] added
+| G_cons a b l l' : R a b -> grows R F l l' -> grows R F (a :: l) (b :: l').
+
+Lemma grows_refl {A} (R : A -> A -> Prop) F : (forall x, R x x) -> forall l, grows R F l l.
+Proof. intros H l. induction l; constructor; auto. Qed.
+
+Lemma grows_of_Forall2 {A} (R : A -> A -> Prop) F l l' : Forall2 R l l' -> grows R F l l'.
+Proof. induction 1; constructor; auto. Qed.
+
+Lemma grows_app {A} (R : A -> A -> Prop) F l l' add : grows R F l l' -> Forall F add -> grows R F l (l' ++ add).
+Proof.
+  induction 1 as [added Ha|a b l l' Hab Hg IH]; intros Hf; simpl.
+  - constructor. apply Forall_app. split; assumption.
+  - constructor; auto.
+Qed.
+
+Lemma grows_nth {A} (R : A -> A -> Prop) F l l' i a :
+  grows R F l l' -> nth_error l i = Some a -> exists b, nth_error l' i = Some b /\ R a b.
+Proof.
+  intros H. revert i. induction H as [added Ha|x y l l' Hxy Hg IH]; intros [|i] Hn; simpl in *; try discriminate.
+  - inversion Hn; subst. eauto.
+  - apply IH. exact Hn.
+Qed.
+
+Lemma grows_set {A} (R : A -> A -> Prop) F (Hr : forall x, R x x) l i a b :
+  nth_error l i = Some a -> R a b -> grows R F l (list_set l i b).
+Proof.
+  revert i. induction l as [|x l IH]; intros [|i] H Hl; simpl in *; try discriminate.
+  - inversion H; subst. constructor; [exact Hl|apply grows_refl, Hr].
+  - constructor; [apply Hr|]. apply IH; assumption.
+Qed.
+
 Definition task_legal (a b : task) : Prop := can_transition (t_status a) (t_status b) = true.
+Definition task_fresh (tk : task) : Prop := t_status tk = NOT_STARTED.
+Definition tasks_legal (ts ts' : list task) : Prop := grows task_legal task_fresh ts ts'.
 Definition stage_legal (a b : stage) : Prop :=
-  can_transition (s_status a) (s_status b) = true /\ Forall2 task_legal (s_tasks a) (s_tasks b).
-Definition stages_legal (l l' : list stage) : Prop := Forall2 stage_legal l l'.
+  can_transition (s_status a) (s_status b) = true /\ tasks_legal (s_tasks a) (s_tasks b).
+Definition stage_fresh (st : stage) : Prop := s_status st = NOT_STARTED /\ Forall task_fresh (s_tasks st).
+Definition stages_legal (l l' : list stage) : Prop := grows stage_legal stage_fresh l l'.
 Definition legal (l : list stage) (w : status) (l' : list stage) (w' : status) : Prop :=
   stages_legal l l' /\ can_transition w w' = true.
 
@@ -111,22 +150,21 @@ Proof. apply can_transition_refl. Qed.
 Lemma Forall2_refl {A} (R : A -> A -> Prop) : (forall x, R x x) -> forall l, Forall2 R l l.
 Proof. intros H l. induction l; constructor; auto. Qed.
 
+Lemma tasks_legal_refl ts : tasks_legal ts ts.
+Proof. apply grows_refl, task_legal_refl. Qed.
+
 Lemma stage_legal_refl a : stage_legal a a.
-Proof. split; [apply can_transition_refl|apply Forall2_refl, task_legal_refl]. Qed.
+Proof. split; [apply can_transition_refl|apply tasks_legal_refl]. Qed.
 
 Lemma stages_legal_refl l : stages_legal l l.
-Proof. apply Forall2_refl, stage_legal_refl. Qed.
+Proof. apply grows_refl, stage_legal_refl. Qed.
 
 Lemma legal_refl l w : legal l w l w.
 Proof. split; [apply stages_legal_refl|apply can_transition_refl]. Qed.
 
 Lemma stages_legal_set l i st st' :
   nth_error l i = Some st -> stage_legal st st' -> stages_legal l (list_set l i st').
-Proof.
-  revert i. induction l as [|a l IH]; intros [|i] H Hl; simpl in *; try discriminate.
-  - inversion H; subst. constructor; [exact Hl|apply stages_legal_refl].
-  - constructor; [apply stage_legal_refl|]. apply IH; assumption.
-Qed.
+Proof. apply grows_set, stage_legal_refl. Qed.
 
 Lemma stages_legal_set_none l i st' : nth_error l i = None -> stages_legal l (list_set l i st').
 Proof. intros H. rewrite list_set_none by exact H. apply stages_legal_refl. Qed.
@@ -134,17 +172,14 @@ Proof. intros H. rewrite list_set_none by exact H. apply stages_legal_refl. Qed.
 (* task list updates *)
 Lemma tasks_legal_set ts t x started tk :
   nth_error ts t = Some tk -> can_transition (t_status tk) x = true ->
-  Forall2 task_legal ts (task_set ts t x started).
+  tasks_legal ts (task_set ts t x started).
 Proof.
-  intros H Hc. unfold task_set. rewrite H.
-  revert t H. induction ts as [|a ts IH]; intros [|t] H; simpl in *; try discriminate.
-  - inversion H; subst. constructor; [exact Hc|apply Forall2_refl, task_legal_refl].
-  - constructor; [apply task_legal_refl|]. apply IH. exact H.
+  intros H Hc. unfold task_set. rewrite H. apply grows_set with tk; [apply task_legal_refl|exact H|exact Hc].
 Qed.
 
-Lemma tasks_legal_cancel ts : Forall2 task_legal ts (cancel_tasks ts).
+Lemma tasks_legal_cancel ts : tasks_legal ts (cancel_tasks ts).
 Proof.
-  unfold cancel_tasks. induction ts as [|a ts IH]; simpl; constructor; [|exact IH].
+  apply grows_of_Forall2. unfold cancel_tasks. induction ts as [|a ts IH]; simpl; constructor; [|exact IH].
   unfold task_legal.
   destruct (status_eqb (t_status a) NOT_STARTED) eqn:E1.
   - apply status_eqb_eq in E1. simpl. rewrite E1. reflexivity.
@@ -259,7 +294,46 @@ Proof. intros H. rewrite stages_after_quiet, wf_after_quiet by exact H. apply le
 (* stage-level legality of the record updates used by the handlers *)
 Lemma stage_legal_same_status st st' :
   s_status st' = s_status st -> s_tasks st' = s_tasks st -> stage_legal st st'.
-Proof. intros H1 H2. split; [rewrite H1; apply can_transition_refl|rewrite H2; apply Forall2_refl, task_legal_refl]. Qed.
+Proof. intros H1 H2. split; [rewrite H1; apply can_transition_refl|rewrite H2; apply tasks_legal_refl]. Qed.
+
+(* commits that store a stage and ADD new (synthetic) stages *)
+Lemma stages_after_adds adds : forall l, stages_after l (map OAdd adds) = l ++ adds.
+Proof.
+  unfold stages_after. induction adds as [|a adds IH]; simpl; intros l; [symmetry; apply app_nil_r|].
+  rewrite IH, <- app_assoc. reflexivity.
+Qed.
+
+Lemma wf_after_adds adds : forall w, wf_after w (map OAdd adds) = w.
+Proof. unfold wf_after. induction adds as [|a adds IH]; simpl; intros w; [reflexivity|apply IH]. Qed.
+
+Lemma legal_put_adds l w i st st' adds q2 :
+  forallb quiet q2 = true -> nth_error l i = Some st -> stage_legal st st' -> Forall stage_fresh adds ->
+  legal l w (stages_after l (OPut i st' :: map OAdd adds ++ q2)) (wf_after w (OPut i st' :: map OAdd adds ++ q2)).
+Proof.
+  intros Hq Hn Hl Hf.
+  assert (stages_after l (OPut i st' :: map OAdd adds ++ q2) = list_set l i st' ++ adds) as E1.
+  { change (OPut i st' :: map OAdd adds ++ q2) with ([OPut i st'] ++ map OAdd adds ++ q2).
+    rewrite !stages_after_app. simpl. rewrite stages_after_adds. apply stages_after_quiet. exact Hq. }
+  assert (wf_after w (OPut i st' :: map OAdd adds ++ q2) = w) as E2.
+  { change (OPut i st' :: map OAdd adds ++ q2) with ([OPut i st'] ++ map OAdd adds ++ q2).
+    rewrite !wf_after_app. simpl. rewrite wf_after_adds. apply wf_after_quiet. exact Hq. }
+  rewrite E1, E2. split; [|apply can_transition_refl].
+  apply grows_app; [apply stages_legal_set with st; assumption|exact Hf].
+Qed.
+
+Lemma mk_children_fresh k base parent o ts : Forall stage_fresh (mk_children_from k base parent o ts).
+Proof.
+  revert k. induction ts as [|t ts IH]; intros k; simpl; constructor; [|apply IH].
+  split; [reflexivity|constructor].
+Qed.
+
+Lemma fresh_tasks_fresh n : Forall task_fresh (fresh_tasks n).
+Proof. unfold fresh_tasks. induction n; simpl; constructor; [reflexivity|assumption]. Qed.
+
+Lemma tasks_legal_planned st : tasks_legal (s_tasks st) (planned_tasks st).
+Proof.
+  unfold planned_tasks. destruct (s_tasks st) as [|a ts] eqn:E; [constructor; apply fresh_tasks_fresh|apply tasks_legal_refl].
+Qed.
 
 Lemma forallb_quiet_app a b : forallb quiet (a ++ b) = forallb quiet a && forallb quiet b.
 Proof. apply forallb_app. Qed.
@@ -350,7 +424,7 @@ Proof.
   destruct (skip_stage_guard (s_status st)) eqn:G; cbn [negb]; [|exact I].
   apply skip_stage_guard_spec in G. expose. split; [|exact I].
   apply (legal_one_put _ _ [] i st _ (OMark id :: c_pushes _ ++ [])); [solve_quiet|solve_quiet|exact Hs|].
-  split; [simpl; rewrite G; reflexivity|simpl; apply Forall2_refl, task_legal_refl].
+  split; [simpl; rewrite G; reflexivity|simpl; apply tasks_legal_refl].
 Qed.
 
 (* ---- CancelStage ---- *)
@@ -421,7 +495,7 @@ Proof.
       apply (legal_one_put _ _ [] i st _ (OMark id :: OPush _ :: [])); [solve_quiet|solve_quiet|exact Hs|].
       split; [simpl; rewrite E; reflexivity|]. simpl. apply tasks_legal_set with tk; [exact Hn|rewrite Hp; reflexivity].
     + apply (legal_one_put _ _ [] i st _ (OMark id :: OPush _ :: [])); [solve_quiet|solve_quiet|exact Hs|].
-      split; [simpl; rewrite E; reflexivity|simpl; apply Forall2_refl, task_legal_refl].
+      split; [simpl; rewrite E; reflexivity|simpl; apply tasks_legal_refl].
   - destruct p; expose; (split; [|exact I]).
     + apply (legal_one_put _ _ [] i st _ (OMark id :: [])); [solve_quiet|solve_quiet|exact Hs|].
       apply stage_legal_same_status; reflexivity.
@@ -556,6 +630,12 @@ Proof.
   - apply IHForall2. exact Hn.
 Qed.
 
+Lemma mk_children_fresh' base parent o ts : Forall stage_fresh (mk_children base parent o ts).
+Proof. apply mk_children_fresh. Qed.
+
+Lemma if_fresh (b : bool) l : Forall stage_fresh l -> Forall stage_fresh (if b then l else []).
+Proof. destruct b; [auto|constructor]. Qed.
+
 Lemma legal_complete_stage s id i :
   chain_legal (w_stages s) (w_status s) (h_commits (handle_complete_stage s id i)).
 Proof.
@@ -565,8 +645,29 @@ Proof.
   destruct (complete_stage_guard (s_status st)); cbn [negb].
   2:{ destruct (is_halt (s_status st)); expose; [split; [apply legal_quiet; solve_quiet|exact I]|exact I]. }
   set (x := determine_status _ _ _ _ _ _).
+  set (first_after := filter (initial_at s) (kids s i OwnAfter)).
+  set (do_after := _ || _).
+  set (new_after := if do_after && is_nil first_after then _ else []).
+  assert (Forall stage_fresh new_after) as Fa by (apply if_fresh, mk_children_fresh').
+  set (after_ns := _ ++ new_initial _ new_after).
+  destruct (do_after && negb (is_nil after_ns)).
+  { expose. split; [|exact I].
+    apply legal_put_adds with st; [solve_quiet|exact Hs|apply stage_legal_same_status; reflexivity|exact Fa]. }
+  set (failing := negb do_after && is_failure x).
+  destruct (failing && existsb _ first_after). { expose. split; [apply legal_quiet; solve_quiet|exact I]. }
+  set (new_fail := if failing && negb (s_onfail st) then _ else []).
+  assert (Forall stage_fresh new_fail) as Ff by (apply if_fresh, mk_children_fresh').
+  set (fail_ns := _ ++ new_initial _ new_fail).
+  destruct (negb (is_nil new_fail) && negb (is_nil fail_ns)).
+  { expose. split; [|exact I].
+    apply legal_put_adds with st; [solve_quiet|exact Hs|apply stage_legal_same_status; reflexivity|exact Ff]. }
+  set (st2 := if negb (is_nil new_fail) then with_onfail st true else st).
+  assert (s_status st2 = s_status st /\ s_tasks st2 = s_tasks st) as [E2s E2t]
+    by (unfold st2; destruct (negb (is_nil new_fail)); split; reflexivity).
   destruct (status_eqb x RUNNING). { expose. split; [apply legal_quiet; solve_quiet|exact I]. }
-  destruct (can_transition (s_status st) x) eqn:C; cbn [negb]; [|exact I].
+  destruct (can_transition (s_status st2) x) eqn:C; cbn [negb]; [|exact I].
+  assert (stage_legal st (st_end st2 x)) as L.
+  { split; [simpl; rewrite <- E2s; exact C|simpl; rewrite E2t; apply tasks_legal_refl]. }
   destruct (status_eqb x SUCCEEDED || status_eqb x FAILED_CONTINUE || status_eqb x SKIPPED).
   - cbn [h_commits ok].
     destruct (benign_chain _ (benign_join_tracking s i (downstream s i)) (w_stages s) (w_status s)) as [Ch [Sm Wf]].
@@ -574,10 +675,9 @@ Proof.
     destruct (Forall2_nth_same _ _ _ _ Sm Hs) as [st' [Hn [E1 E2]]].
     expose. split; [|exact I].
     apply (legal_one_put _ _ [] i st' _ (OMark id :: c_pushes _ ++ [])); [solve_quiet|solve_quiet|exact Hn|].
-    split; [simpl; rewrite E1; exact C|simpl; rewrite E2; apply Forall2_refl, task_legal_refl].
+    split; [simpl; rewrite E1, <- E2s; exact C|simpl; rewrite E2, E2t; apply tasks_legal_refl].
   - expose. split; [|exact I].
-    apply (legal_one_put _ _ [] i st _ (OPush _ :: OPush _ :: [])); [solve_quiet|solve_quiet|exact Hs|].
-    split; [exact C|simpl; apply Forall2_refl, task_legal_refl].
+    apply (legal_one_put _ _ [] i st _ (OPush _ :: OPush _ :: [])); [solve_quiet|solve_quiet|exact Hs|exact L].
 Qed.
 
 (* ---- StartStage ---- *)
@@ -591,7 +691,7 @@ Proof.
   intros Hs. unfold start_if_ready.
   set (st := if bypass then st_ctl st0 false (s_jump_count st0) (s_buffered st0) (s_signal st0) else st0).
   assert (s_status st = s_status st0 /\ s_tasks st = s_tasks st0) as [Est Ets] by (unfold st; destruct bypass; split; reflexivity).
-  set (zombie := status_eqb (s_status st) RUNNING && (s_plan_pending st || is_nil (s_tasks st))).
+  set (zombie := status_eqb (s_status st) RUNNING && (s_plan_pending st || (is_nil (s_tasks st) && is_nil (children s i)))).
   destruct (negb (start_stage_fresh (s_status st)) && negb zombie) eqn:E0; [exact I|].
   destruct (should_skip st). { expose. split; [apply legal_quiet; solve_quiet|exact I]. }
   destruct (mutex_blocked s i st). { expose. split; [apply legal_quiet; solve_quiet|exact I]. }
@@ -604,7 +704,7 @@ Proof.
   assert (stage_legal st0 claimed) as Lc.
   { unfold claimed. destruct zombie eqn:Z.
     - apply stage_legal_same_status; simpl; assumption.
-    - split; [|simpl; rewrite Ets; apply Forall2_refl, task_legal_refl].
+    - split; [|simpl; rewrite Ets; apply tasks_legal_refl].
       simpl. rewrite andb_false_r in E0 || idtac.
       assert (start_stage_fresh (s_status st) = true) as F.
       { destruct (start_stage_fresh (s_status st)); [reflexivity|]. simpl in E0. discriminate. }
@@ -623,9 +723,12 @@ Proof.
     + apply chain_legal_quiet. destruct (s_choice st); [apply quiet_chain_map_push|constructor].
     + rewrite fold_stages_quiet, fold_wf_quiet by (destruct (s_choice st); [apply quiet_chain_map_push|constructor]).
       expose. split; [|exact I].
-      apply (legal_one_put _ _ [] i claimed _ (OMark id :: c_pushes _ ++ [])); [solve_quiet|solve_quiet| |].
+      apply legal_put_adds with claimed; [solve_quiet| | |].
       * apply nth_list_set_same with st0. exact Hs.
-      * apply stage_legal_same_status; reflexivity.
+      * split; [apply can_transition_refl|]. simpl.
+        replace (s_tasks claimed) with (s_tasks st) by (unfold claimed; destruct zombie; reflexivity).
+        apply tasks_legal_planned.
+      * unfold new_before. destruct (kids s i OwnBefore); [apply mk_children_fresh'|constructor].
 Qed.
 
 Lemma legal_start_stage s id i k :
@@ -647,7 +750,7 @@ Proof.
     destruct (wait_exhausted k max_stage_wait_retries).
     - destruct (can_transition (s_status st) TERMINAL) eqn:C; expose; (split; [|exact I]).
       + apply (legal_one_put _ _ [] i st _ (OPush _ :: [])); [solve_quiet|solve_quiet|exact Hs|].
-        split; [exact C|simpl; apply Forall2_refl, task_legal_refl].
+        split; [exact C|simpl; apply tasks_legal_refl].
       + apply legal_put_same with st; [solve_quiet|exact Hs|reflexivity|reflexivity].
     - expose. split; [apply legal_quiet; solve_quiet|exact I]. }
   destruct (rr_phase r).
@@ -703,10 +806,36 @@ Proof.
     + apply status_eqb_eq in W. apply legal_put_wf with st; [solve_quiet|exact Hs|exact L|rewrite W; reflexivity].
     + apply (legal_one_put _ _ [] i st _ (OMark id :: OPush _ :: [])); [solve_quiet|solve_quiet|exact Hs|exact L].
   - assert (stage_legal st (st_status st RUNNING)) as L.
-    { split; [simpl; rewrite E; reflexivity|simpl; apply Forall2_refl, task_legal_refl]. }
+    { split; [simpl; rewrite E; reflexivity|simpl; apply tasks_legal_refl]. }
     destruct (status_eqb (w_status s) PAUSED) eqn:W; expose; (split; [|exact I]).
     + apply status_eqb_eq in W. apply legal_put_wf with st; [solve_quiet|exact Hs|exact L|rewrite W; reflexivity].
     + apply (legal_one_put _ _ [] i st _ (OMark id :: [])); [solve_quiet|solve_quiet|exact Hs|exact L].
+Qed.
+
+(* ---- ContinueParentStage ---- *)
+Lemma legal_continue_parent s id i o k :
+  chain_legal (w_stages s) (w_status s) (h_commits (handle_continue_parent s id i o k)).
+Proof.
+  unfold handle_continue_parent.
+  destruct (get_stage s i) as [st|] eqn:Hs; [|exact I].
+  destruct (existsb in_halt _).
+  { destruct (can_transition (s_status st) TERMINAL) eqn:C; cbn [negb]; [|exact I].
+    expose. split; [|exact I].
+    apply (legal_one_put _ _ [] i st _ (OMark id :: OPush _ :: [])); [solve_quiet|solve_quiet|exact Hs|].
+    split; [exact C|simpl; apply tasks_legal_refl]. }
+  destruct (forallb in_continuable _); cbn [negb].
+  2:{ destruct (max_stage_wait_retries <=? k)%Z.
+      - destruct (can_transition (s_status st) TERMINAL) eqn:C; cbn [negb]; [|exact I].
+        expose. split; [|exact I].
+        apply (legal_one_put _ _ [] i st _ (OMark id :: OPush _ :: [])); [solve_quiet|solve_quiet|exact Hs|].
+        split; [exact C|simpl; apply tasks_legal_refl].
+      - expose. split; [apply legal_quiet; solve_quiet|exact I]. }
+  destruct o.
+  - destruct (s_tasks st). 2:{ expose. split; [apply legal_quiet; solve_quiet|exact I]. }
+    destruct (filter (initial_at s) (kids s i OwnAfter)). { expose. split; [apply legal_quiet; solve_quiet|exact I]. }
+    destruct (filter _ (n :: l)); [exact I|].
+    expose. split; [apply legal_quiet; solve_quiet|exact I].
+  - expose. split; [apply legal_quiet; solve_quiet|exact I].
 Qed.
 
 (* ------------------------------------------------------------------------------------------ *)
@@ -734,6 +863,7 @@ Proof.
   - apply legal_signal_stage.
   - apply legal_pause_task.
   - apply legal_resume_stage.
+  - apply legal_continue_parent.
 Qed.
 
 Fixpoint pairwise_legal (s : state) (ss : list state) : Prop :=
@@ -843,15 +973,11 @@ Proof.
   - intros Hc. symmetry. apply (completed_final _ _ Hc Hw).
   - intros i st st' Hn Hn'.
     assert (stage_legal st st') as [H1 H2].
-    { clear - Hs Hn Hn'. revert i Hn Hn'. induction Hs; intros [|i] Hn Hn'; simpl in *; try discriminate.
-      - inversion Hn; inversion Hn'; subst. assumption.
-      - eapply IHHs; eassumption. }
+    { destruct (grows_nth _ _ _ _ _ _ Hs Hn) as [b [Hb Hl]]. congruence. }
     split.
     + intros Hc. symmetry. apply (completed_final _ _ Hc H1).
     + intros t tk tk' Ht Ht' Hc.
       assert (task_legal tk tk') as L.
-      { clear - H2 Ht Ht'. revert t Ht Ht'. induction H2; intros [|t] Ht Ht'; simpl in *; try discriminate.
-        - inversion Ht; inversion Ht'; subst. assumption.
-        - eapply IHForall2; eassumption. }
+      { destruct (grows_nth _ _ _ _ _ _ H2 Ht) as [b [Hb Hl]]. congruence. }
       symmetry. apply (completed_final _ _ Hc L).
 Qed.
